@@ -827,6 +827,19 @@ M('C17', 'Config.from_hdf5 reads the plain attributes first (equivalent)',
         obj.options = hdf5_loader.load_dict(h5gr, dict_format, subpath)
 """, None, expect='silent')
 
+M('C17', 'masked array: compact format chosen when ANY element agrees (original defect)', HIO,
+  "if np.any((filled == fill_value) != obj.mask):", "if np.any((filled == fill_value) == obj.mask):",
+  'HDF5-masked-compact')
+M('C17', 'masked array: compact format condition written with np.all (equivalent)', HIO,
+  "if np.any((filled == fill_value) != obj.mask):", "if not np.all((filled == fill_value) == obj.mask):",
+  None, expect='silent')
+M('C17', 'UniformMPS.from_hdf5 does not restore unit_cell_width (original defect)',
+  'tenpy/networks/uniform_mps.py', """        if 'unit_cell_width' in h5gr:
+            obj.unit_cell_width = hdf5_loader.load(subpath + 'unit_cell_width')
+        else:  # files written before unit_cell_width was saved: same default as for MPS
+            obj.unit_cell_width = len(obj.sites)
+""", "", 'HDF5-new-typestate')
+
 # ---------------------------------------------------------------- C16 / C19
 M('C16', 'GMRES restart: relative residual norm used for normalisation (round-3 seed b)', KRY,
   """        self.total_error.append([npc.norm(self.rs[-1]) / self.b_norm])
